@@ -29,6 +29,8 @@ func main() {
 		runTamper(*tier, *seed, *summary, *out)
 	case "codec":
 		runCodec(*tier, *seed, *summary, *out)
+	case "cache":
+		runCache(*tier, *seed, *summary, *out)
 	default:
 		fmt.Fprintln(os.Stderr, "unknown mode", mode)
 		os.Exit(2)
